@@ -237,6 +237,16 @@ class ClassInfo:
         self.bases: list[ClassInfo] = []      # resolved project bases
         self.subclasses: list[ClassInfo] = []
         self.class_attrs: dict[str, ast.AST] = {}
+        self.setters: dict[str, FuncInfo] = {}     # property setters / deleters, by property name
+        self.deleters: dict[str, FuncInfo] = {}
+
+    def find_setter(self, name: str) -> Optional[FuncInfo]:
+        for c in self.mro():
+            if name in c.setters:
+                return c.setters[name]
+            if name in c.methods:
+                return None
+        return None
 
     def mro(self) -> list["ClassInfo"]:
         out, todo = [], [self]
@@ -391,7 +401,15 @@ class Project:
             for b in st.body:
                 if isinstance(b, (ast.FunctionDef, ast.AsyncFunctionDef)):
                     fi = FuncInfo(m, b, ci, None)
-                    ci.methods[b.name] = fi
+                    role = next((d.attr for d in b.decorator_list if isinstance(d, ast.Attribute) and d.attr in ("setter", "deleter")
+                                 and isinstance(d.value, ast.Name) and d.value.id == b.name), None)
+                    if role is not None:
+                        # `@x.setter def x(self, v)`: the second definition of the name does not replace the property's getter
+                        fi.local = f"{ci.name}.{b.name}@{role}"
+                        fi.qual = f"{m.name}:{fi.local}"
+                        (ci.setters if role == "setter" else ci.deleters)[b.name] = fi
+                    else:
+                        ci.methods[b.name] = fi
                     self._register_func(fi)
                 elif isinstance(b, ast.Assign):
                     for t in b.targets:
